@@ -634,7 +634,17 @@ impl Compiler {
                 self.push_op(Debug, &[expression_register]);
                 self.push_var_u32(u32::from(*expression_string));
 
-                expression_result
+                match ctx.result_register {
+                    // The caller doesn't expect a result, so the temporary register that was used
+                    // for the expression needs to be released here.
+                    ResultRegister::None => {
+                        if expression_result.is_temporary {
+                            self.pop_register()?;
+                        }
+                        CompileNodeOutput::none()
+                    }
+                    _ => expression_result,
+                }
             }
             Node::Meta(_, _) => {
                 // Meta nodes are currently only compiled in the context of an export assignment,
